@@ -141,6 +141,7 @@ class Unit:
         self.funcs = {}      # (level, python name) -> {"lean": name, "ret": type, "params": n}
         self.fields = {}     # python attribute `_adjF2C` -> (compute function lean name, field, type, elem)
         self.text = []
+        self.bstates = {}    # python method name -> {"lean", "fields", "locals"} of the boundary-extraction methods
         self.outside = []    # notes
         self.detail = {}
 
@@ -402,8 +403,10 @@ class Fn:
             if isinstance(t, ast.Name):
                 if self._is_container_init(v):
                     ty, elem, init = self.init_value(v, env)
-                    self._declare(t.id, t.id, ty, elem, local=True)
-                    L.append(f"{ind}let s := {{ s with {t.id} := {init} }}")
+                    f0 = self.field(t.id)
+                    c = f0[1] if f0 else (self._cname(t.id) if hasattr(self, "_cname") else t.id)
+                    self._declare(t.id, c, ty, elem, local=True)
+                    L.append(f"{ind}let s := {{ s with {c} := {init} }}")
                     return L
                 e, ty = self.cx(v, env)
                 ty = ty.rstrip("*")
@@ -624,6 +627,278 @@ class Fn:
 
 
 # ------------------------------------------------------------------------------------------------------------------
+# round 5: boundary extraction (`_BoundaryConnectivity._extract_surface_boundary`, `.__init__`, `extract_boundary_of_volume`)
+# ------------------------------------------------------------------------------------------------------------------
+LEAN_TY.update({"set": "List Nat", "ptlist": "List Nat", "facelist": "List (List Nat)"})
+
+
+class BFn(Fn):
+    """adds: a local `RawMeshData()` object (its `.vertices` / `.faces` become the fields `<obj>_vertices` (volume ids of the
+    appended points) and `<obj>_faces`), local sets (`set()` -> insertion log, iterated through `eraseDups`), `int -> int` dicts read as
+    values, points (`<mesh>.vertices[v]`, `p - q`, `det_3x3(..) > 0`), generator unpacking `a,b,c = (E(x) for x in L)`,
+    `[x for x in L1 if x not in L2][0]`, `tuple(E(v) for v in L)`, `L[::-1]`, `faces[i] = F`; ctx `func`: the mesh is the parameter."""
+
+    def __init__(self, unit, ctx, fn, lean_name, mesh_param=None, eid=False):
+        super().__init__(unit, ctx, fn, lean_name)
+        self.objs = set()
+        self.mesh_param = mesh_param
+        self.int_entries = set()
+        self.eid = eid
+
+    def _cname(self, pyname):
+        self.ncont = getattr(self, "ncont", 0)
+        self.ncont += 1
+        return f"c{self.ncont - 1}"
+
+    def res(self, node):
+        ch = _chain(node)
+        if not ch: return None
+        if ch[0] in self.objs and len(ch) == 2: return ("obj", f"{ch[0]}_{ch[1]}")
+        if self.ctx == "func" and ch[0] == self.mesh_param:
+            if len(ch) == 3 and ch[1] == "connectivity": return ("conn", ch[2])
+            if len(ch) == 2: return ("mesh", ch[1])
+            return None
+        return resolve(self.ctx, node)
+
+    def _target_field(self, node):
+        if isinstance(node, ast.Attribute):
+            r = self.res(node)
+            if r and r[0] == "obj": return self.field(r[1])
+            if r and r[0] == "own": return self.field(r[1])
+            return None
+        return super()._target_field(node)
+
+    # -- expressions
+    def cx(self, n, env):
+        if isinstance(n, ast.Name) and n.id not in env:
+            f = self.field(n.id)
+            if f is not None and f[2] in ("list", "set"):
+                return (f"s.{f[1]}" if f[2] == "list" else f"s.{f[1]}.eraseDups"), "list*"
+        if isinstance(n, ast.Subscript):
+            v, sl = n.value, n.slice
+            r = self.res(v) if isinstance(v, ast.Attribute) else None
+            if r and r[0] == "mesh" and r[1] == "vertices":
+                i, ti = self.cx_atom(sl, env)
+                if ti != "nat": raise self.err("vertex index type")
+                return f"m.pt {i}", "pt*"
+            if r and r[0] == "mesh" and r[1] in MESH_LISTS and not isinstance(sl, ast.Slice):
+                i, ti = self.cx_atom(sl, env)
+                if ti != "nat": raise self.err("container index is not an int")
+                return f"(m.{MESH_LISTS[r[1]]} {i})", "list"
+            f = self._target_field(v)
+            if f is not None and f[2] == "amap" and not isinstance(sl, ast.Slice):
+                i, ti = self.cx_atom(sl, env)
+                if ti != "nat": raise self.err("map key type")
+                return f"aGetD s.{f[1]} {i}", "nat*"
+            # L[::-1]
+            if isinstance(sl, ast.Slice) and sl.lower is None and sl.upper is None and isinstance(sl.step, ast.UnaryOp) \
+                    and isinstance(sl.step.op, ast.USub) and isinstance(sl.step.operand, ast.Constant) and sl.step.operand.value == 1:
+                e, t = self.cx_atom(v, env)
+                if t != "list": raise self.err("reversal of a non-list")
+                return f"{e}.reverse", "list*"
+            # [x for x in L1 if x not in L2][0]
+            if isinstance(v, ast.ListComp) and isinstance(sl, ast.Constant) and sl.value == 0 and len(v.generators) == 1:
+                g = v.generators[0]
+                if isinstance(g.target, ast.Name) and isinstance(v.elt, ast.Name) and v.elt.id == g.target.id and len(g.ifs) == 1 \
+                        and isinstance(g.ifs[0], ast.Compare) and len(g.ifs[0].ops) == 1 and isinstance(g.ifs[0].ops[0], ast.NotIn) \
+                        and isinstance(g.ifs[0].left, ast.Name) and g.ifs[0].left.id == g.target.id:
+                    a, ta = self.cx_atom(g.iter, env); b, tb = self.cx_atom(g.ifs[0].comparators[0], env)
+                    if ta != "list" or tb != "list": raise self.err("filter comprehension types")
+                    return f"firstNotInD {a} {b}", "nat*"
+        if isinstance(n, ast.BinOp) and isinstance(n.op, ast.Sub):
+            a, ta = self.cx_atom(n.left, env); b, tb = self.cx_atom(n.right, env)
+            if ta == tb == "pt": return f"{a}.sub {b}", "pt*"
+            raise self.err(f"subtraction of {ta},{tb}")
+        if isinstance(n, ast.Call) and isinstance(n.func, ast.Name) and n.func.id == "det_3x3" and len(n.args) == 3 and not n.keywords:
+            args = [self.cx_atom(a, env) for a in n.args]
+            if any(t != "pt" for _, t in args): raise self.err("det_3x3 of non-points")
+            return "det3 " + " ".join(e for e, _ in args), "rat*"
+        if isinstance(n, ast.Compare) and len(n.ops) == 1 and isinstance(n.ops[0], (ast.Lt, ast.Gt)):
+            l, r = n.left, n.comparators[0]
+            if isinstance(n.ops[0], ast.Gt): l, r = r, l
+            if isinstance(l, ast.Constant) and l.value == 0 and not isinstance(l.value, bool):
+                e, t = self.cx_atom(r, env)
+                if t == "rat": return f"decide (0 < {e})", "bool"
+        # tuple(E(v) for v in L) / [E(v) for v in L]
+        g = None
+        if isinstance(n, ast.Call) and isinstance(n.func, ast.Name) and n.func.id in ("tuple", "list") and len(n.args) == 1 \
+                and isinstance(n.args[0], (ast.GeneratorExp, ast.ListComp)): g = n.args[0]
+        if g is not None and len(g.generators) == 1 and not g.generators[0].ifs and isinstance(g.generators[0].target, ast.Name):
+            L, tL = self.cx_atom(g.generators[0].iter, env)
+            if tL != "list": raise self.err("comprehension over a non-list")
+            x = self.fresh()
+            e2 = dict(env); e2[g.generators[0].target.id] = (x, "nat")
+            body, tb = self.cx_atom(g.elt, e2)
+            if tb != "nat": raise self.err("comprehension element type")
+            return f"{L}.map (fun {x} => {body})", "list*"
+        if isinstance(n, ast.Attribute):
+            r = self.res(n)
+            if r and r[0] == "mesh" and r[1] in MESH_RANGES: return f"(List.range m.{MESH_RANGES[r[1]]})", "list"
+            if r and r[0] == "mesh" and ("mesh", r[1]) in self.u.funcs and self.u.funcs[("mesh", r[1])]["params"] == 0:
+                return f"({self.u.funcs[('mesh', r[1])]['lean']} m)", self.u.funcs[("mesh", r[1])]["ret"]
+        return super().cx(n, env)
+
+    def ccall(self, n, env):
+        f = n.func
+        r = self.res(f) if isinstance(f, ast.Attribute) else None
+        if r and r[0] == "conn" and not n.keywords:
+            g = self.u.funcs.get(("conn", r[1]))
+            if g is not None:
+                args = [self.cx_atom(a, env) for a in n.args]
+                if len(args) != g["params"] or any(t != "nat" for _, t in args): raise self.err(f"call of {r[1]}")
+                return f"{g['lean']} m" + "".join(" " + e for e, _ in args), g["ret"] + "*"
+        if self.eid and r and r[0] == "own" and r[1] == "edge_id" and len(n.args) == 2 and not n.keywords:
+            args = [self.cx_atom(a, env) for a in n.args]
+            if any(t != "nat" for _, t in args): raise self.err("edge_id arguments")
+            return f"eid {args[0][0]} {args[1][0]}", "nat*"
+        return super().ccall(n, env)
+
+    # -- statements
+    def stmt(self, st, env, ind, loop_env):
+        # mesh = self._extract_surface_boundary(): the maps it rebinds on self become readable / writable here
+        if isinstance(st, ast.Assign) and len(st.targets) == 1 and isinstance(st.targets[0], ast.Name) and isinstance(st.value, ast.Call) \
+                and isinstance(st.value.func, ast.Attribute) and not st.value.args:
+            r = self.res(st.value.func)
+            callee = self.u.bstates.get(r[1]) if (r and r[0] == "own") else None
+            if callee is not None:
+                out = []
+                for (attr, lean, ty, elem) in callee["fields"]:
+                    if ty == "amap" and attr not in callee["locals"]:
+                        self._declare(attr, lean, ty, elem)
+                        out.append(f"{ind}let s := {{ s with {lean} := ({callee['lean']} m).{lean} }}")
+                self.boundary_mesh_var = st.targets[0].id
+                return out
+        if isinstance(st, ast.Expr) and isinstance(st.value, ast.Call) and isinstance(st.value.func, ast.Attribute):
+            c = st.value
+            recv = c.func.value
+            if isinstance(recv, ast.Call) and isinstance(recv.func, ast.Name) and recv.func.id == "super" and c.func.attr == self.fn.name \
+                    and len(c.args) == 1 and isinstance(c.args[0], ast.Name) and c.args[0].id == getattr(self, "boundary_mesh_var", None):
+                self.u.outside.append(f"{self.fn.name}: super().{c.func.attr}({c.args[0].id}) (surface connectivity of the boundary mesh: C01)")
+                return ["NOOP"]
+        if isinstance(st, ast.Assign) and len(st.targets) == 1:
+            t, v = st.targets[0], st.value
+            # obj = RawMeshData()
+            if isinstance(t, ast.Name) and isinstance(v, ast.Call) and isinstance(v.func, ast.Name) and v.func.id == "RawMeshData" and not v.args:
+                self.objs.add(t.id)
+                o = f"obj{len(self.objs) - 1}"          # local names are canonical: renaming a local does not change the generated text
+                self._declare(f"{t.id}_vertices", f"{o}_vertices", "ptlist", None)
+                self._declare(f"{t.id}_faces", f"{o}_faces", "facelist", None)
+                return [f"{ind}let s := {{ s with {o}_vertices := [] }}", f"{ind}let s := {{ s with {o}_faces := [] }}"]
+            # x = set()
+            if isinstance(t, ast.Name) and isinstance(v, ast.Call) and isinstance(v.func, ast.Name) and v.func.id == "set" and not v.args:
+                c = self._cname(t.id)
+                self._declare(t.id, c, "set", None)
+                return [f"{ind}let s := {{ s with {c} := [] }}"]
+            # a, b, c = (E(x) for x in L)
+            if isinstance(t, ast.Tuple) and all(isinstance(e, ast.Name) for e in t.elts) and isinstance(v, ast.GeneratorExp) \
+                    and len(v.generators) == 1 and not v.generators[0].ifs and isinstance(v.generators[0].target, ast.Name):
+                L, tL = self.cx_atom(v.generators[0].iter, env)
+                if tL != "list": raise self.err("generator over a non-list")
+                out = []
+                for i, name in enumerate(t.elts):
+                    e2 = dict(env); e2[v.generators[0].target.id] = (f"(unpack {L} {i})", "nat")
+                    e, ty = self.cx(v.elt, e2)
+                    ty = ty.rstrip("*")
+                    if ty not in ("nat", "pt"): raise self.err(f"generator element of type {ty}")
+                    x = self.bind(name.id, env, loop_env, ty)
+                    out.append(f"{ind}let {x} := {e}")
+                return out
+            # local of point type / map value
+            if isinstance(t, ast.Name) and not self._is_container_init(v):
+                e, ty = self.cx(v, env)
+                ty = ty.rstrip("*")
+                if ty == "pt":
+                    x = self.bind(t.id, env, loop_env, ty)
+                    return [f"{ind}let {x} := {e}"]
+            # faces[i] = F
+            if isinstance(t, ast.Subscript):
+                f = self._target_field(t.value)
+                if f is not None and f[2] == "facelist":
+                    i, ti = self.cx_atom(t.slice, env); e, te = self.cx_atom(v, env)
+                    if ti != "nat" or te != "list": raise self.err("face store types")
+                    return [f"{ind}let s := {{ s with {f[1]} := listSet s.{f[1]} {i} {e} }}"]
+            # self.x = None (declaration of an instance attribute, rebound later)
+            if isinstance(t, ast.Attribute) and isinstance(v, ast.Constant) and v.value is None:
+                r = self.res(t)
+                if r and r[0] == "own": return ["NOOP"]
+            if isinstance(t, ast.Attribute):
+                r = self.res(t)
+                if r and r[0] == "own" and r[1] == "complete_mesh" and isinstance(v, ast.Name): return ["NOOP"]
+        if isinstance(st, ast.Expr) and isinstance(st.value, ast.Call) and isinstance(st.value.func, ast.Attribute):
+            c = st.value
+            meth, recv = c.func.attr, c.func.value
+            f = self._target_field(recv)
+            if f is not None and meth in ("append", "add") and len(c.args) == 1 and not c.keywords:
+                a = c.args[0]
+                if f[2] == "set" and meth == "add":
+                    e, t = self.cx_atom(a, env)
+                    if t != "nat": raise self.err("set element type")
+                    return [f"{ind}let s := {{ s with {f[1]} := s.{f[1]} ++ [{e}] }}"]
+                if f[2] == "ptlist" and meth == "append":
+                    r = self.res(a.value) if isinstance(a, ast.Subscript) and isinstance(a.value, ast.Attribute) else None
+                    if not (r and r[0] == "mesh" and r[1] == "vertices"): raise self.err("appended point is not a vertex of the volume")
+                    e, t = self.cx_atom(a.slice, env)
+                    return [f"{ind}let s := {{ s with {f[1]} := s.{f[1]} ++ [{e}] }}"]
+                if f[2] == "facelist" and meth == "append":
+                    e, t = self.cx_atom(a, env)
+                    if t == "nat":
+                        self.int_entries.add(f[0])
+                        return [f"{ind}let s := {{ s with {f[1]} := s.{f[1]} ++ [[{e}]] }}"]
+                    if t != "list": raise self.err("appended face type")
+                    return [f"{ind}let s := {{ s with {f[1]} := s.{f[1]} ++ [{e}] }}"]
+            if meth == "prepare" and isinstance(recv, ast.Name) and recv.id in self.objs and not c.args:
+                self.u.outside.append(f"{self.fn.name}: {recv.id}.prepare() (RawMeshData preparation: C02)")
+                return ["NOOP"]
+        if isinstance(st, ast.Return):
+            self.returned = ast.unparse(st.value) if st.value is not None else None
+            return ["NOOP"]
+        return super().stmt(st, env, ind, loop_env)
+
+    def cfor(self, st, env, ind):
+        it = st.iter
+        enum = isinstance(it, ast.Call) and isinstance(it.func, ast.Name) and it.func.id == "enumerate" and len(it.args) == 1
+        if enum:
+            f = self._target_field(it.args[0])
+            if f is not None and f[2] == "facelist" and f[0] in self.int_entries:
+                # enumerate over the faces container whose entries are (still) face ids: the entry is read as an int
+                tg = st.target
+                if not (isinstance(tg, ast.Tuple) and len(tg.elts) == 2 and all(isinstance(e, ast.Name) for e in tg.elts)): raise self.err("enumerate loop target")
+                inner = dict(env)
+                xi = self.fresh(); inner[tg.elts[0].id] = (xi, "nat")
+                xv = self.fresh(); inner[tg.elts[1].id] = (xv, "nat")
+                for x in self._assigned(st.body):
+                    if x in env: raise self.err(f"local {x} bound outside the loop is reassigned inside it (loop-carried local)")
+                body = [b for b in self.block(st.body, inner, ind + "  ", env) if b != "NOOP"]
+                return [f"{ind}let s := (s.{f[1]}.zipIdx).foldl (fun s p =>", f"{ind}  let {xi} := p.2", f"{ind}  let {xv} := unpack p.1 0"] + body + [f"{ind}  s) s"]
+        return super().cfor(st, env, ind)
+
+    def compile_state(self, body=None, struct=None, params="", args=""):
+        """every top-level `for` loop becomes its own definition `<name>_loop<k> m s` (the bridges speak about the loops one by one)"""
+        body = _strip(_body(self.fn) if body is None else body)
+        struct = struct or "".join(w.capitalize() for w in self.lean.split("_")) + "St"
+        main, loops, env, k = [], [], {}, 0
+        for st in body:
+            lines = [x for x in self.stmt(st, env, "  ", None) if x != "NOOP"]
+            if isinstance(st, ast.For) and lines:
+                k += 1
+                loops.append((f"{self.lean}_loop{k}", ast.unparse(st).split("\n")[0], lines))
+                main.append(f"  let s := {self.lean}_loop{k} m{args} s")
+            else:
+                main += lines
+        flds = "".join(f"  {f[1]} : {LEAN_TY[f[2]]}\n" for f in self.fields)
+        init = ", ".join(f"{f[1]} := []" for f in self.fields)
+        txt = f"/-- state written by `{self.fn.name}` (fields in order of first store) -/\nstructure {struct} where\n{flds}  outside : Bool\n\n"
+        for name, head, lines in loops:
+            txt += f"/-- `{self.fn.name}`: the loop `{head}` -/\ndef {name} (m : Mesh){params} (s : {struct}) : {struct} :=\n" + "\n".join(lines) + "\n  s\n\n"
+        txt += (f"/-- `{self.fn.name}`, statement by statement -/\n"
+                f"def {self.lean} (m : Mesh){params} : {struct} :=\n"
+                f"  let s : {struct} := {{ {init}{', ' if init else ''}outside := false }}\n" + "\n".join(main) + "\n  s\n")
+        self.u.text.append(txt)
+        return {"fields": [f"{f[1]}:{f[2]}" for f in self.fields], "statements": len(main) + sum(len(l[2]) for l in loops), "loops": len(loops),
+                "returns": getattr(self, "returned", None)}
+
+
+# ------------------------------------------------------------------------------------------------------------------
 # accessors: `if self._X is None: self._compute(); return <expr>`
 # ------------------------------------------------------------------------------------------------------------------
 def _guard(st, ctx):
@@ -811,6 +1086,44 @@ def site_volume_bodies():
     return {"sha": sha, "functions": d, "outside_the_fragment": u.outside}
 
 
+BND_HEADER = "import Mouette.Generated.C03S\n"
+BOR = "mouette/processing/border.py"
+
+
+def site_boundary_bodies():
+    """round 5: `_BoundaryConnectivity._extract_surface_boundary`, `.__init__`, `processing.border.extract_boundary_of_volume`"""
+    tree, _ = T.load(VOL)
+    u = Unit()
+    # the accessors these bodies call (compiled by the first site; same names)
+    u.funcs[("conn", "face_to_cells")] = {"lean": "C03S.face_to_cells", "ret": "list", "params": 1}
+    u.funcs[("mesh", "boundary_faces")] = {"lean": "C03S.boundary_faces", "ret": "list", "params": 0}
+    u.funcs[("mesh", "boundary_edges")] = {"lean": "C03S.boundary_edges", "ret": "list", "params": 0}
+    d = {}
+    B = "VolumeMesh._BoundaryConnectivity."
+    f1 = BFn(u, "bc", _get(tree, B + "_extract_surface_boundary"), "extract_surface_boundary")
+    d["_extract_surface_boundary"] = f1.compile_state()
+    if d["_extract_surface_boundary"]["returns"] not in ("SurfaceMesh(boundary)",) and not (d["_extract_surface_boundary"]["returns"] or "").startswith("SurfaceMesh("):
+        raise TranslateError(f"_extract_surface_boundary returns {d['_extract_surface_boundary']['returns']}")
+    u.bstates["_extract_surface_boundary"] = {"lean": "extract_surface_boundary", "fields": list(f1.fields),
+                                               "locals": {f[0] for f in f1.fields if not f[0].startswith(("m2b_", "b2m_"))}}
+    f2 = BFn(u, "bc", _get(tree, B + "__init__"), "bc_init", eid=True)
+    d["__init__"] = f2.compile_state(params=" (eid : Nat → Nat → Nat)", args=" eid")
+    tree2, _ = T.load(BOR)
+    fn3 = _get(tree2, "extract_boundary_of_volume")
+    ps = [a.arg for a in fn3.args.args]
+    if len(ps) != 1: raise TranslateError("extract_boundary_of_volume: signature")
+    f3 = BFn(u, "func", fn3, "extract_boundary_of_volume", mesh_param=ps[0])
+    d["extract_boundary_of_volume"] = f3.compile_state()
+    ret = d["extract_boundary_of_volume"]["returns"] or ""
+    obj = sorted(f3.objs)
+    maps = [f[0] for f in f3.fields if f[2] == "amap"]
+    if len(obj) != 1 or len(maps) != 2 or ret.replace(" ", "") != f"(SurfaceMesh({obj[0]}),{maps[0]},{maps[1]})":
+        raise TranslateError(f"extract_boundary_of_volume returns {ret}")
+    out = "namespace Mouette.Generated.C03B\nopen Mouette.Vol Mouette.VolS Mouette.Generated\n\n" + "\n".join(u.text) + "\nend Mouette.Generated.C03B\n"
+    _, sha = T.write_generated("C03B", out, header=BND_HEADER)
+    return {"sha": sha, "functions": d, "outside_the_fragment": u.outside}
+
+
 TRANSLATED = [
     "VolumeMesh._Connectivity._compute_cell_adj", "VolumeMesh._Connectivity.face_to_cells", "VolumeMesh._Connectivity.cell_to_face",
     "VolumeMesh._Connectivity._compute_connectivity", "VolumeMesh._Connectivity.vertex_to_cell",
@@ -824,8 +1137,21 @@ TRANSLATED = [
 FALLBACK = None
 
 
+def _stub(name, ns, header, why):
+    """a site that raises must not leave the definitions of an EARLIER tree on disk: the stub makes the bridges fail to build"""
+    T.write_generated(name, f"namespace {ns}\n-- SITE NOT RECOGNISED in the current tree: {why[:300]!r}\nend {ns}\n", header=header)
+
+
+TRANSLATED_R5 = ["VolumeMesh._BoundaryConnectivity._extract_surface_boundary", "VolumeMesh._BoundaryConnectivity.__init__"]
+TRANSLATED_R5_BORDER = ["extract_boundary_of_volume"]
+
+
 def run():
     s = T.site("volume.py: bodies of _compute_cell_adj/_compute_connectivity/_compute_edge_id/_compute_adjacent_cell, the accessors "
                "face_to_cells/cell_to_face/vertex_to_cell/cell_to_cell, is_face_on_border, _compute_interior_boundary_faces/vertices/edges, "
                "boundary_faces/interior_faces (statement-by-statement definitions)", site_volume_bodies)
-    return [s]
+    if not s["ok"]: _stub("C03S", "Mouette.Generated.C03S", HEADER, str(s["detail"]))
+    b = T.site("volume.py + border.py: whole bodies of _BoundaryConnectivity._extract_surface_boundary / __init__ and "
+               "processing.border.extract_boundary_of_volume (one definition per loop)", site_boundary_bodies)
+    if not b["ok"]: _stub("C03B", "Mouette.Generated.C03B", BND_HEADER, str(b["detail"]))
+    return [s, b]
